@@ -76,6 +76,10 @@ Scatter(data, lens) ==
          IN  <<SubSeq(data, 1, k)>> \o Scatter(SubSeq(data, k + 1, Len(data)), Tail(lens))
 
 ----------------------------------------------------------------------------
+\* the error of a lookup whose last component is missing: the host says ENOTDIR when the parent exists but is a regular
+\* file, follows a parent that is a symbolic link (not modelled), and says ENOENT otherwise
+Missing(s, pp) == IF Exists(s, pp) /\ s.fs[pp].kind = "file" THEN ENOTDIR
+                  ELSE IF Exists(s, pp) /\ s.fs[pp].kind = "link" THEN EUNSPEC ELSE ENOENT
 (* path_open: oflags bits creat 1, directory 2, excl 4, trunc 8; c.rd / c.wr from the rights; c.app from fdflags *)
 PathOpen(s, c) ==
     IF ~Live(s, c.dirfd) THEN Res(s, EBADF, NoOut)
@@ -100,8 +104,8 @@ PathOpen(s, c) ==
             ELSE IF dirf THEN Res(s, ENOTDIR, NoOut)
             ELSE LET s2 == IF trunc THEN [s EXCEPT !.fs[p] = EmptyFile] ELSE s
                  IN  Res([s2 EXCEPT !.fds = Append(@, entry("file"))], ESUCCESS, [fd |-> newfd])
-        ELSE IF ~creat THEN Res(s, ENOENT, NoOut)
-        ELSE IF ~IsDir(s, Join(IF c.abs THEN "" ELSE d.path, c.parent)) THEN Res(s, ENOENT, NoOut)
+        ELSE IF ~creat THEN Res(s, Missing(s, Join(IF c.abs THEN "" ELSE d.path, c.parent)), NoOut)
+        ELSE IF ~IsDir(s, Join(IF c.abs THEN "" ELSE d.path, c.parent)) THEN Res(s, Missing(s, Join(IF c.abs THEN "" ELSE d.path, c.parent)), NoOut)
         ELSE IF dirf THEN Res(s, EINVAL, NoOut)               \* O_CREAT | O_DIRECTORY: Linux refuses
         ELSE Res([s EXCEPT !.fs = SetF(@, p, EmptyFile), !.fds = Append(@, entry("file"))], ESUCCESS, [fd |-> newfd])
 
@@ -188,40 +192,41 @@ PathOp(s, c) ==
     ELSE
     LET p == Join(d.path, c.path)
         under == {c.under[j] : j \in DOMAIN c.under}
-        parentOK == IsDir(s, Join(d.path, c.parent))
+        pp == Join(d.path, c.parent)
+        parentOK == IsDir(s, pp)
     IN  CASE c.call = "mkdir" ->
                IF Exists(s, p) THEN Res(s, EEXIST, NoOut)
-               ELSE IF ~parentOK THEN Res(s, ENOENT, NoOut)
+               ELSE IF ~parentOK THEN Res(s, Missing(s, pp), NoOut)
                ELSE Res([s EXCEPT !.fs = SetF(@, p, [kind |-> "dir"])], ESUCCESS, NoOut)
           [] c.call = "rmdir" ->
-               IF ~Exists(s, p) THEN Res(s, ENOENT, NoOut)
+               IF ~Exists(s, p) THEN Res(s, Missing(s, pp), NoOut)
                ELSE IF s.fs[p].kind # "dir" THEN Res(s, ENOTDIR, NoOut)
                ELSE IF \E q \in DOMAIN s.fs : q \in under THEN Res(s, ENOTEMPTY, NoOut)
                ELSE Res([s EXCEPT !.fs = DelF(@, p)], ESUCCESS, NoOut)
           [] c.call = "unlink" ->
-               IF ~Exists(s, p) THEN Res(s, ENOENT, NoOut)
+               IF ~Exists(s, p) THEN Res(s, Missing(s, pp), NoOut)
                ELSE IF s.fs[p].kind = "dir" THEN Res(s, EISDIR, NoOut)
                ELSE Res([s EXCEPT !.fs = DelF(@, p)], ESUCCESS, NoOut)
           [] c.call = "symlink" ->
                IF Exists(s, p) THEN Res(s, EEXIST, NoOut)
-               ELSE IF ~parentOK THEN Res(s, ENOENT, NoOut)
+               ELSE IF ~parentOK THEN Res(s, Missing(s, pp), NoOut)
                ELSE Res([s EXCEPT !.fs = SetF(@, p, [kind |-> "link", target |-> c.target])], ESUCCESS, NoOut)
           [] c.call = "readlink" ->
                IF c.buflen = 0 THEN Res(s, EUNSPEC, NoOut)              \* a zero-sized buffer: the host decides
-               ELSE IF ~Exists(s, p) THEN Res(s, ENOENT, NoOut)
+               ELSE IF ~Exists(s, p) THEN Res(s, Missing(s, pp), NoOut)
                ELSE IF s.fs[p].kind # "link" THEN Res(s, EINVAL, NoOut)
                ELSE Res(s, ESUCCESS, [target |-> s.fs[p].target, buflen |-> c.buflen])
           [] c.call = "pathstat" ->
-               IF ~Exists(s, p) THEN Res(s, ENOENT, NoOut)
+               IF ~Exists(s, p) THEN Res(s, Missing(s, pp), NoOut)
                ELSE IF s.fs[p].kind = "link" THEN Res(s, EUNSPEC, NoOut)
                ELSE IF s.fs[p].kind = "dir" THEN Res(s, ESUCCESS, [size |-> Z8, ftype |-> 3, skip |-> TRUE])
                ELSE Res(s, ESUCCESS, [size |-> s.fs[p].size, ftype |-> 4, skip |-> FALSE])
           [] c.call = "rename" ->
                LET d2 == FdOf(s, c.fd)  q == Join(d2.path, c.path2) IN
                IF d2.kind = "file" THEN Res(s, EUNSPEC, NoOut)
-               ELSE IF ~Exists(s, p) THEN Res(s, ENOENT, NoOut)
+               ELSE IF ~Exists(s, p) THEN Res(s, Missing(s, pp), NoOut)
                ELSE IF s.fs[p].kind = "dir" \/ (Exists(s, q) /\ s.fs[q].kind = "dir") THEN Res(s, EUNSPEC, NoOut)   \* directory renames: not modelled
-               ELSE IF ~IsDir(s, Join(d2.path, c.parent2)) THEN Res(s, ENOENT, NoOut)
+               ELSE IF ~IsDir(s, Join(d2.path, c.parent2)) THEN Res(s, Missing(s, Join(d2.path, c.parent2)), NoOut)
                ELSE IF p = q THEN Res(s, ESUCCESS, NoOut)
                ELSE Res([s EXCEPT !.fs = SetF(DelF(@, p), q, s.fs[p])], ESUCCESS, NoOut)
 
